@@ -54,6 +54,13 @@ def encode(c, enc):
     raise KeyError(op)
 
 
+def _shape(cls, entry):
+    """insertEntry accepts a namedtuple, a plain tuple or a list: all three spellings are exercised, chosen by a
+    deterministic function of the entry (no extra random draw, replays stay exact)"""
+    k = (len(entry[-1]) + len(entry)) % 3
+    return cls(*entry) if k == 0 else (tuple(entry) if k == 1 else list(entry))
+
+
 def _mut(t, fn):
     """run a mutator; the result is the receiver's state afterwards"""
     r = T.call(fn)
@@ -104,9 +111,9 @@ def impl(c, objs=None):
         u = mk("other")
         r = T.call(lambda: t.mergeLabels(u))
     elif op == "iinsert":
-        return _mut(t, lambda: t.insertEntry(Interval(*c["entry"]), c["mode"], c.get("report", "silence")))
+        return _mut(t, lambda: t.insertEntry(_shape(Interval, c["entry"]), c["mode"], c.get("report", "silence")))
     elif op == "pinsert":
-        return _mut(t, lambda: t.insertEntry(Point(*c["entry"]), c["mode"], c.get("report", "silence")))
+        return _mut(t, lambda: t.insertEntry(_shape(Point, c["entry"]), c["mode"], c.get("report", "silence")))
     elif op == "idelete":
         return _mut(t, lambda: t.deleteEntry(Interval(*c["entry"])))
     elif op == "pdelete":
